@@ -317,22 +317,45 @@ func (ex *Exec) atCall(st *State, fr *Frame, instr ssa.Instruction, name string,
 	type owner struct {
 		key string
 		sp  *FuncSpec
+		fr  *Frame // frame the clause's names are resolved in
 	}
 	var owners []owner
 	if fr.spec != nil {
-		owners = append(owners, owner{fr.key, fr.spec})
+		owners = append(owners, owner{fr.key, fr.spec, fr})
 	}
 	if fr.fn != nil && !fr.top && (fr.spec == nil || fr.spec.Inline) {
 		for p := fr.fn.Parent(); p != nil; p = p.Parent() {
 			pk := ex.prog.Keys[p]
 			if psp := ex.specs.Funcs[pk]; psp != nil {
-				owners = append(owners, owner{pk, psp})
+				owners = append(owners, owner{pk, psp, fr})
 			}
 		}
 	}
-	for _, o := range owners {
+	// ... and those of the functions that are executing this one in place (a helper without a contract
+	// is part of its caller's body: moving a call into such a helper does not take it out of the
+	// caller's "at a call to f" clauses). Clauses that name a site ordinal stay with their own function.
+	nLex := len(owners)
+	if fr.fn != nil && !fr.top && (fr.spec == nil || fr.spec.Inline) {
+		seen := map[string]bool{}
+		for _, o := range owners {
+			seen[o.key] = true
+		}
+		for f := fr.parent; f != nil; f = f.parent {
+			if f.spec != nil && !seen[f.key] {
+				owners = append(owners, owner{f.key, f.spec, f})
+				seen[f.key] = true
+			}
+			if f.top {
+				break
+			}
+		}
+	}
+	for oi, o := range owners {
 		for _, c := range o.sp.AtCall {
 			if !strings.Contains(name, c.Callee) && !(alt != "" && strings.Contains(alt, c.Callee)) {
+				continue
+			}
+			if c.Ord >= 0 && oi >= nLex {
 				continue
 			}
 			if c.Ord >= 0 && ex.siteOrdinal(fr.fn, instr, c.Callee) != c.Ord {
@@ -342,7 +365,7 @@ func (ex *Exec) atCall(st *State, fr *Frame, instr ssa.Instruction, name string,
 			for i, a := range args {
 				extra[fmt.Sprintf("arg%d", i)] = a
 			}
-			g := ex.evalClause(st, fr, c, extra)
+			g := ex.evalClause(st, o.fr, c, extra)
 			ex.covers[o.key+"/atcall/"+c.name()+"/"+c.Callee] = true
 			ob := ex.oblige(st, "atcall", fmt.Sprintf("%s/%s", o.key, c.name()), c.Labels, g, c, ex.posOf(instr))
 			ex.attachProbes(st, fr, ob)
@@ -578,6 +601,13 @@ func (ex *Exec) doGo(st *State, fr *Frame, x *ssa.Go) {
 		return
 	}
 	key := ex.prog.Keys[target]
+	if sp := ex.specs.Funcs[key]; sp == nil && key != "" && !strings.HasPrefix(key, "goatorepo.") && !strings.HasPrefix(key, "testutil.") {
+		// goroutine census: every goroutine the library starts runs a function under contract (that is
+		// where its escapes, its frame and its hand-offs are stated); a goroutine started on code
+		// without a contract has no argument that it ever ends
+		ex.oblige(st, "go-census", fmt.Sprintf("%s#go@%s.uncontracted", fr.key, smtSym(key)),
+			[]string{"C10.goroutine_census", "C11.goroutine_census", "C14.goroutine_census", "C15.goroutine_census", "C17.goroutine_census", "C18.goroutine_census", "C19.goroutine_census"}, "false", nil, ex.posOf(x))
+	}
 	if sp := ex.specs.Funcs[key]; sp != nil {
 		allArgs := args
 		pf := ex.pseudoFrame(target, key, sp, allArgs, binds, st)
@@ -627,6 +657,7 @@ func (ex *Exec) builtin(st *State, fr *Frame, instr ssa.Instruction, b *ssa.Buil
 		return ex.appendSlice(st, s, more, so, resT)
 	case "delete":
 		ex.disciplineMap(st, fr, instr, args[0], true)
+		ex.onDelete(st, fr, instr, args[0], args[1])
 		ex.mapDelete(st, args[0], args[1])
 		return Val{Typ: resT}
 	case "close":
@@ -997,4 +1028,28 @@ func chlenArr(ch Val) string {
 
 func isSpbStatus(fn *ssa.Function) bool {
 	return fn.Pkg != nil && fn.Pkg.Pkg.Path() == "google.golang.org/genproto/googleapis/rpc/status"
+}
+
+// onDelete: typestate of registry entries - "an entry leaves table F only when P(entry) holds" (declared
+// with ondelete). Proved at every delete from a map loaded from field F, for a key that is present.
+func (ex *Exec) onDelete(st *State, fr *Frame, instr ssa.Instruction, m Val, k Val) {
+	if !strings.HasPrefix(m.Origin, "H.") {
+		return
+	}
+	fk := strings.TrimPrefix(m.Origin, "H.")
+	cls := ex.specs.OnDelete[fk]
+	if len(cls) == 0 {
+		return
+	}
+	_, _, ks := ex.mapInfo(m)
+	key := st.bind("delkey", ks, k.T)
+	present := "(select " + ex.mapDom(st, m) + " " + key + ")"
+	entry := ex.mapGet(st, m, key)
+	kv := k
+	kv.T = key
+	for _, c := range cls {
+		g := ex.evalClause(st, fr, c, map[string]Val{"key": kv, "entry": entry})
+		ex.covers["ondelete/"+fk+"/"+c.name()] = true
+		ex.oblige(st, "ondelete", fmt.Sprintf("%s#ondelete@%s.%s", fr.key, fk, c.name()), c.Labels, "(=> "+present+" "+g+")", c, ex.posOf(instr))
+	}
 }
